@@ -369,7 +369,12 @@ pub fn run(ctx: &Ctx) -> Result<InitStats, String> {
                             }
                         }
                     }
-                    Err(DataError::InvalidSequence { .. }) => {
+                    // "surfaces as a terminal sequence error that forces re-initialisation": the statement names no
+                    // enum variant - every error that `is_terminal()` (the predicate `init_market_stream` ends the
+                    // connection on) tells the consumer that the book is invalid; `InvalidSequence` is kept by name so
+                    // that a sequence error that lost its terminal flag still ends the consumer's connection here
+                    // (the transformer layer reports that it is not terminal)
+                    Err(e) if e.is_terminal() || matches!(e, DataError::InvalidSequence { .. }) => {
                         trace.push("E-seq".into());
                         told_invalid = true;
                         if covering_delivered {
